@@ -142,8 +142,6 @@ theorem mirror_rfGrouping (cfg : Cfg) (s : St) (sec : Sec) (idx : Nat) (vals : L
       simp only [List.isEmpty_nil, ↓reduceIte]
       have hno : l = s.pol.get sec := by
         unfold Policy.removeFilteredReturnsEffects at hrf
-        split at hrf
-        · cases hrf; rfl
         · cases hpf : partitionFiltered idx vals (s.pol.get sec) with
           | error e => simp [hpf, Except.map] at hrf
           | ok pr =>
@@ -161,8 +159,6 @@ theorem mirror_rfGrouping (cfg : Cfg) (s : St) (sec : Sec) (idx : Nat) (vals : L
       simp only [List.isEmpty_cons, Bool.false_eq_true, ↓reduceIte]
       have hl : l = (s.pol.get sec).filter (fun r => !Spec.matchesFilter idx vals r) := by
         unfold Policy.removeFilteredReturnsEffects at hrf
-        split at hrf
-        · cases hrf
         · cases hpf : partitionFiltered idx vals (s.pol.get sec) with
           | error e => simp [hpf, Except.map] at hrf
           | ok pr =>
